@@ -14,7 +14,7 @@
 (* The position is not unique (aaa -> aa): every edit that reproduces seq2 *)
 (* from seq1 is acceptable (Edits is the whole set).                       *)
 (***************************************************************************)
-EXTENDS Integers, Sequences, FiniteSets
+EXTENDS Integers, Sequences, FiniteSets, SequencesExt
 
 DropAt(s, p) == SubSeq(s, 1, p - 1) \o SubSeq(s, p + 1, Len(s))      \* p in 1..Len(s)
 
@@ -48,40 +48,36 @@ JudgeD1(a, b, d, pos, x, y) ==
   ELSE "ok"
 
 ---------------------------------------------------------------------------
-(* Levenshtein distance by row folds: the independent definition of "edit distance" that *)
+(* Levenshtein distance by row folds (FoldLeft of SequencesExt): the independent definition of "edit distance" that *)
 (* D1Ref is checked against (LCSCheck!D1IsEditDistance)                                  *)
 Min2(x, y) == IF x <= y THEN x ELSE y
 
-RECURSIVE LevRow(_, _, _, _, _)
-LevRow(a, b, i, prev, acc) ==
-  LET j == Len(acc) IN
-  IF j > Len(b) THEN acc
-  ELSE LevRow(a, b, i, prev,
-              Append(acc, Min2(prev[j] + (IF a[i] = b[j] THEN 0 ELSE 1), Min2(prev[j + 1] + 1, acc[j] + 1))))
+LevRow(ai, b, prev, i) ==
+  FoldLeft(LAMBDA acc, j :
+             Append(acc, Min2(prev[j] + (IF ai = b[j] THEN 0 ELSE 1), Min2(prev[j + 1] + 1, acc[j] + 1))),
+           <<i>>, [k \in 1..Len(b) |-> k])
 
-RECURSIVE LevRows(_, _, _, _)
-LevRows(a, b, i, prev) == IF i > Len(a) THEN prev ELSE LevRows(a, b, i + 1, LevRow(a, b, i, prev, <<i>>))
-
-Lev(a, b) == LevRows(a, b, 1, [j \in 1..(Len(b) + 1) |-> j - 1])[Len(b) + 1]
+Lev(a, b) == FoldLeft(LAMBDA prev, i : LevRow(a[i], b, prev, i),
+                      [j \in 1..(Len(b) + 1) |-> j - 1], [k \in 1..Len(a) |-> k])[Len(b) + 1]
 
 ---------------------------------------------------------------------------
 (* Implementation-shaped model of D1Or0 (pkg/obialign/is_d0_or_d1.go): common prefix scan, *)
 (* common suffix scan that stops at the prefix, at most one position may be left.  Indices  *)
 (* are the 0-based ones of the code; s[k + 1] is the code's s[k].                           *)
 
-RECURSIVE Prefix(_, _, _)
-Prefix(s1, s2, k) == IF k < Len(s1) /\ k < Len(s2) /\ s1[k + 1] = s2[k + 1] THEN Prefix(s1, s2, k + 1) ELSE k
+RECURSIVE ScanPrefix(_, _, _)
+ScanPrefix(s1, s2, k) == IF k < Len(s1) /\ k < Len(s2) /\ s1[k + 1] = s2[k + 1] THEN ScanPrefix(s1, s2, k + 1) ELSE k
 
-RECURSIVE Suffix(_, _, _, _, _)
-Suffix(s1, s2, b, e1, e2) ==             \* returns <<e1, e2>> after the backward scan
-  IF (e1 > b \/ e2 > b) /\ s1[e1 + 1] = s2[e2 + 1] THEN Suffix(s1, s2, b, e1 - 1, e2 - 1) ELSE <<e1, e2>>
+RECURSIVE ScanSuffix(_, _, _, _, _)
+ScanSuffix(s1, s2, b, e1, e2) ==             \* returns <<e1, e2>> after the backward scan
+  IF (e1 > b \/ e2 > b) /\ s1[e1 + 1] = s2[e2 + 1] THEN ScanSuffix(s1, s2, b, e1 - 1, e2 - 1) ELSE <<e1, e2>>
 
 ScanD1(s1, s2) ==
   LET l1 == Len(s1)  l2 == Len(s2) IN
   IF l1 - l2 > 1 \/ l2 - l1 > 1 THEN <<-1, -1, "", "">>
-  ELSE LET b == Prefix(s1, s2, 0) IN
+  ELSE LET b == ScanPrefix(s1, s2, 0) IN
        IF b = l1 /\ b = l2 THEN <<0, -1, "", "">>
-       ELSE LET e  == Suffix(s1, s2, b, l1 - 1, l2 - 1)
+       ELSE LET e  == ScanSuffix(s1, s2, b, l1 - 1, l2 - 1)
                 e1 == e[1]
                 e2 == e[2]
             IN IF \/ (l1 = l2 /\ (e1 > b \/ e2 > b))
